@@ -139,10 +139,20 @@ impl Fam for WG {
     type S<'g, X: 'g> = happylock::lockable::GuardSlice<X>;
     fn m_pay<'x, 'g: 'x>(m: &'x mut Self::M<'g>) -> PayRef<'x> {
         crate::maybe_lend!(m, MutexRef<'g, Pay, SimRawMutex>, 1u8);
+        if crate::caps::reflecting() {
+            #[allow(unused_imports)]
+            use self::MutexAccessorFallback as _;
+            crate::caps::REFLECTED.with(|r| r.set(<MutexRef<'g, Pay, SimRawMutex>>::mutex(&*m).lock_addr().map(|a| (a, false))));
+        }
         PayRef::Mut(&mut **m)
     }
     fn r_pay<'x, 'g: 'x>(r: &'x mut Self::R<'g>) -> PayRef<'x> {
         crate::maybe_lend!(r, RwLockWriteRef<'g, Pay, SimRawRwLock>, 2u8);
+        if crate::caps::reflecting() {
+            #[allow(unused_imports)]
+            use self::RwAccessorFallback as _;
+            crate::caps::REFLECTED.with(|x| x.set(<RwLockWriteRef<'g, Pay, SimRawRwLock>>::rwlock(&*r).lock_addr().map(|a| (a, true))));
+        }
         PayRef::Mut(&mut **r)
     }
     fn p_open<'x, 'g: 'x, X: 'g>(p: &'x mut Self::P<'g, X>) -> (bool, &'x mut X) {
@@ -163,6 +173,11 @@ impl Fam for RG {
     }
     fn r_pay<'x, 'g: 'x>(r: &'x mut Self::R<'g>) -> PayRef<'x> {
         crate::maybe_lend!(r, RwLockReadRef<'g, Pay, SimRawRwLock>, 3u8);
+        if crate::caps::reflecting() {
+            #[allow(unused_imports)]
+            use self::RwAccessorFallback as _;
+            crate::caps::REFLECTED.with(|x| x.set(<RwLockReadRef<'g, Pay, SimRawRwLock>>::rwlock(&*r).lock_addr().map(|a| (a, true))));
+        }
         crate::shared_leaf_access!(r, RwLockReadRef<'g, Pay, SimRawRwLock>)
     }
     fn p_open<'x, 'g: 'x, X: 'g>(p: &'x mut Self::P<'g, X>) -> (bool, &'x mut X) {
@@ -860,6 +875,9 @@ pub enum SNode {
     RefB(RefHolder<SB>),
     PBoxedV(Box<Poisonable<BoxedLockCollection<SV>>>),
     PRetryB(Box<Poisonable<RetryingLockCollection<SB>>>),
+    /// over bare lock references obtained from member guards (if guards hand such references out)
+    BoxedVM(BoxedLockCollection<Vec<&'static M>>),
+    BoxedVR(BoxedLockCollection<Vec<&'static R>>),
     /// plain arrays as children (their guards are plain arrays of member guards)
     BoxedA2(BoxedLockCollection<[&'static Leaf; 2]>),
     RetryA3(Box<RetryingLockCollection<[&'static Leaf; 3]>>),
@@ -1432,5 +1450,44 @@ pub unsafe fn swap_member_guards(a: usize, b: usize, tag: u8) {
         2 => std::ptr::swap(a as *mut RwLockWriteRef<'static, Pay, SimRawRwLock>, b as *mut RwLockWriteRef<'static, Pay, SimRawRwLock>),
         3 => std::ptr::swap(a as *mut RwLockReadRef<'static, Pay, SimRawRwLock>, b as *mut RwLockReadRef<'static, Pay, SimRawRwLock>),
         _ => panic!("happysim: unknown member guard tag"),
+    }
+}
+
+// ---------------------------------------------------------------------------------------
+// a reference to the lock a member guard holds (`guard.mutex()` / `guard.rwlock()`, as
+// lock_api's guards offer): the library's guards must not hand one out - with it the
+// members of an owned collection are reachable by shared reference
+
+pub trait MutexAccessorFallback {
+    // (an associated function, called by path: finds a library `fn mutex(&self)` as well as a
+    // lock_api-style `fn mutex(s: &Self)`)
+    fn mutex(_this: &Self) -> NoAccess {
+        NoAccess
+    }
+}
+impl MutexAccessorFallback for MutexRef<'_, Pay, SimRawMutex> {}
+pub trait RwAccessorFallback {
+    fn rwlock(_this: &Self) -> NoAccess {
+        NoAccess
+    }
+}
+impl RwAccessorFallback for RwLockWriteRef<'_, Pay, SimRawRwLock> {}
+impl RwAccessorFallback for RwLockReadRef<'_, Pay, SimRawRwLock> {}
+pub trait LockAddr {
+    fn lock_addr(self) -> Option<usize>;
+}
+impl LockAddr for NoAccess {
+    fn lock_addr(self) -> Option<usize> {
+        None
+    }
+}
+impl LockAddr for &M {
+    fn lock_addr(self) -> Option<usize> {
+        Some(self as *const M as usize)
+    }
+}
+impl LockAddr for &R {
+    fn lock_addr(self) -> Option<usize> {
+        Some(self as *const R as usize)
     }
 }
